@@ -84,6 +84,11 @@ pub trait Check: Sync {
     fn exhaustive(&self) -> bool {
         false
     }
+    /// run the search in a child process so that an abort (allocation failure, stack overflow)
+    /// inside the code under test becomes a verdict instead of killing the check
+    fn isolate(&self) -> bool {
+        false
+    }
 }
 
 pub fn verif_dir() -> PathBuf {
@@ -268,8 +273,133 @@ fn reproduces_in_fresh_process(path: &Path) -> Option<bool> {
     }
 }
 
+fn child_died(code: Option<i32>) -> bool {
+    !matches!(code, Some(0) | Some(1) | Some(2))
+}
+
+fn spawn_self(args: &[String], envs: &[(&str, String)], quiet: bool) -> Option<i32> {
+    let exe = std::env::current_exe().ok()?;
+    let mut c = std::process::Command::new(exe);
+    c.args(args).env("PLSIM_CHILD", "1");
+    for (k, v) in envs {
+        c.env(k, v);
+    }
+    if quiet {
+        c.stdout(std::process::Stdio::null()).stderr(std::process::Stdio::null());
+    }
+    c.status().ok().and_then(|s| s.code())
+}
+
+/// Parent side of an isolated check: run the child; if it dies, find the culprit.
+pub fn run_check_isolated(chk: &dyn Check, tier: Tier, base_seed: u64) -> i32 {
+    let t0 = Instant::now();
+    let prop = chk.prop();
+    let args: Vec<String> = vec![
+        "check".into(),
+        prop.into(),
+        "--tier".into(),
+        tier.name().into(),
+        "--seed".into(),
+        base_seed.to_string(),
+    ];
+    let code = spawn_self(&args, &[], false);
+    if !child_died(code) {
+        return code.unwrap_or(2);
+    }
+    println!("plsim: {prop}: the checking process died ({code:?}); isolating the input");
+    let total = std::env::var("VERIF_RUNS")
+        .ok()
+        .and_then(|s| s.parse().ok())
+        .unwrap_or_else(|| chk.runs(tier));
+    // the enumerated part alone?
+    let mut lo = 0u64;
+    let mut hi = total;
+    let dies = |lo: u64, hi: u64, trace: Option<&Path>| -> bool {
+        let mut envs: Vec<(&str, String)> = vec![
+            ("VERIF_RANGE", format!("{lo}..{hi}")),
+            ("PLSIM_NO_EVIDENCE", "1".into()),
+        ];
+        if let Some(t) = trace {
+            envs.push(("PLSIM_TRACE", t.display().to_string()));
+            envs.push(("VERIF_WORKERS", "1".into()));
+        }
+        child_died(spawn_self(&args, &envs, true))
+    };
+    let out_dir = verif_dir().join("out");
+    let _ = std::fs::create_dir_all(&out_dir);
+    let trace_path = out_dir.join(format!("{prop}-crash-trace.jsonl"));
+    let in_once = dies(0, 0, None);
+    if !in_once {
+        if !dies(lo, hi, None) {
+            eprintln!("harness error: {prop}: the crash does not reproduce");
+            return 2;
+        }
+        while hi - lo > 1 {
+            let mid = lo + (hi - lo) / 2;
+            if dies(lo, mid, None) {
+                hi = mid;
+            } else {
+                lo = mid;
+            }
+        }
+    } else {
+        hi = 0;
+        lo = 0;
+    }
+    let _ = dies(lo, hi, Some(&trace_path));
+    let last = std::fs::read_to_string(&trace_path)
+        .ok()
+        .and_then(|s| s.lines().last().map(|l| l.to_string()));
+    let _ = std::fs::remove_file(&trace_path);
+    let Some(case) = last.and_then(|l| serde_json::from_str::<Value>(&l).ok()) else {
+        eprintln!("harness error: {prop}: the process dies but no input could be isolated");
+        return 2;
+    };
+    let sig = format!("{prop}/process-aborts");
+    let detail = format!(
+        "the process is killed (abort / stack overflow / allocation failure) while handling this input; run index {lo}; case {}",
+        {
+            let t = case.to_string();
+            if t.len() > 400 { format!("{}…", &t[..t.char_indices().take(400).last().map(|x| x.0).unwrap_or(0)]) } else { t }
+        }
+    );
+    let path = out_dir.join(format!("{prop}-process-aborts.json"));
+    let body = replay_body(chk, &sig, base_seed, lo, mix(base_seed, crate::prng::tag_of(prop), lo), &case, &detail);
+    std::fs::write(&path, serde_json::to_string_pretty(&body).unwrap()).ok();
+    println!(
+        "VIOLATION property={prop} replay={} signature={sig} detail={}",
+        path.display(),
+        detail.replace('\n', " ")
+    );
+    // evidence: what the parent can vouch for
+    let ev = json!({
+        "property_id": prop,
+        "tier": tier.name(),
+        "seed": base_seed,
+        "level": chk.level(),
+        "coverage": {
+            "evaluations": lo + 1,
+            "distinct_nontrivial": 2,
+            "rule": format!("{} | THIS RUN: the checking process died; counts are conservative (runs before the crashing run; the crashing case and its predecessor)", chk.rule()),
+            "samples": [case],
+            "process_died": true,
+            "crashing_run_index": lo,
+        },
+        "assumptions": chk.assumptions(),
+        "wall_s": t0.elapsed().as_secs_f64(),
+        "violations": 1,
+    });
+    let ev_dir = verif_dir().join("evidence");
+    let _ = std::fs::create_dir_all(&ev_dir);
+    let _ = std::fs::write(ev_dir.join(format!("{prop}.json")), serde_json::to_string_pretty(&ev).unwrap());
+    1
+}
+
 /// Run a check; returns the process exit code.
 pub fn run_check(chk: &dyn Check, tier: Tier, base_seed: u64) -> i32 {
+    if chk.isolate() && std::env::var("PLSIM_CHILD").is_err() {
+        return run_check_isolated(chk, tier, base_seed);
+    }
     let t0 = Instant::now();
     let prop = chk.prop();
     let tag = crate::prng::tag_of(prop);
@@ -351,6 +481,17 @@ pub fn run_check(chk: &dyn Check, tier: Tier, base_seed: u64) -> i32 {
     const CHUNK: u64 = 32;
     let round: u64 = 8192;
     let mut done_upto = 0u64;
+    let mut total = total;
+    let mut skip_once = false;
+    if let Ok(r) = std::env::var("VERIF_RANGE") {
+        // crash triage: only the runs lo..hi (0..0 = only the enumerated part)
+        let mut it = r.split("..");
+        let lo: u64 = it.next().and_then(|x| x.parse().ok()).unwrap_or(0);
+        let hi: u64 = it.next().and_then(|x| x.parse().ok()).unwrap_or(total);
+        done_upto = lo;
+        total = hi;
+        skip_once = hi > 0;
+    }
     while done_upto < total && !stop.load(Ordering::Relaxed) {
         let round_end = (done_upto + round).min(total);
         next.store(done_upto, Ordering::Relaxed);
@@ -411,7 +552,9 @@ pub fn run_check(chk: &dyn Check, tier: Tier, base_seed: u64) -> i32 {
     let mut once_viol: Vec<(Value, Violation)> = vec![];
     let mut once_evals = 0u64;
     let mut once_distinct = 0u64;
-    if let Some((e, d, v, desc)) = chk.once(tier) {
+    if skip_once {
+        // nothing
+    } else if let Some((e, d, v, desc)) = chk.once(tier) {
         once_evals = e;
         once_distinct = d;
         once_viol = v;
@@ -572,12 +715,14 @@ pub fn run_check(chk: &dyn Check, tier: Tier, base_seed: u64) -> i32 {
         "wall_s": wall,
         "violations": n_new,
     });
-    let ev_dir = verif_dir().join("evidence");
-    let _ = std::fs::create_dir_all(&ev_dir);
-    let ev_path = ev_dir.join(format!("{prop}.json"));
-    if let Err(e) = std::fs::write(&ev_path, serde_json::to_string_pretty(&ev).unwrap()) {
-        eprintln!("harness error: cannot write evidence: {e}");
-        return 2;
+    if std::env::var("PLSIM_NO_EVIDENCE").is_err() {
+        let ev_dir = verif_dir().join("evidence");
+        let _ = std::fs::create_dir_all(&ev_dir);
+        let ev_path = ev_dir.join(format!("{prop}.json"));
+        if let Err(e) = std::fs::write(&ev_path, serde_json::to_string_pretty(&ev).unwrap()) {
+            eprintln!("harness error: cannot write evidence: {e}");
+            return 2;
+        }
     }
     println!(
         "plsim: {prop} {}: {} runs ({} evaluations, {} distinct non-trivial), {} known, {} new, {:.1}s",
@@ -598,6 +743,29 @@ pub fn run_check(chk: &dyn Check, tier: Tier, base_seed: u64) -> i32 {
 /// `plsim replay <file>`: exit 1 + VIOLATION line iff the recorded signature reproduces.
 pub fn replay(chk: &dyn Check, file: &Path, body: &Value, quiet: bool) -> i32 {
     let sig = body["signature"].as_str().unwrap_or("");
+    if sig.ends_with("/process-aborts") && std::env::var("PLSIM_CHILD").is_err() {
+        // the case kills the process: execute it in a child and report its death
+        let code = spawn_self(
+            &["replay".to_string(), file.display().to_string(), "--quiet".to_string()],
+            &[],
+            true,
+        );
+        if child_died(code) {
+            if !quiet {
+                println!(
+                    "VIOLATION property={} replay={} signature={} detail=the process is killed while handling the recorded input",
+                    chk.prop(),
+                    file.display(),
+                    sig
+                );
+            }
+            return 1;
+        }
+        if !quiet {
+            println!("replay of {} did not bring the process down", file.display());
+        }
+        return 0;
+    }
     match chk.run_case(&body["case"]) {
         Err(e) => {
             eprintln!("harness error: replay file unusable: {e}");
